@@ -123,6 +123,7 @@ def main():
 
     # 3. correspondence ------------------------------------------------------------------------
     stream_results = []
+    other_tags = {}
     samples = []
     total_cases = 0
     distinct = set()
@@ -176,6 +177,12 @@ def main():
                 if i % max(1, r["cases"] // 3) == 0 and len(samples) < 12:
                     samples.append({"stream": stream, "op": vlib.clip(lo.strip(), 300), "real": vlib.clip(lr.strip(), 200)})
         for (n, verdict) in r["oracle_fails"]:
+            # oracle verdicts are tagged with the property whose statement they test ("FAIL C02 …"); a failure of
+            # another property's statement is not a violation of this one (it is reported by that property's check)
+            mtag = re.match(r"FAIL (C\d\d)\b", verdict)
+            if mtag and mtag.group(1) != pid and mtag.group(1) not in P.get("also_tags", []):
+                other_tags[mtag.group(1)] = other_tags.get(mtag.group(1), 0) + 1
+                continue
             op = vlib.get_line(pre + ".ops", n)
             k = known_match(known, pid, stream, op or "", verdict)
             if k:
@@ -213,8 +220,9 @@ def main():
                     violations.insert(0, dict(kind="impl-fault", stream=stream, variant=variant, seed=s2, tier="thorough",
                                               detail=f"harness exit {r['harness_rc']}: " + r["harness_err"][-1500:], found_input=True))
                     break
-                if r["oracle_fails"]:
-                    n, verdict = r["oracle_fails"][0]
+                fails2 = [(n, v) for (n, v) in r["oracle_fails"] if not (re.match(r"FAIL (C\d\d)\b", v) and re.match(r"FAIL (C\d\d)\b", v).group(1) != pid)]
+                if fails2:
+                    n, verdict = fails2[0]
                     op = vlib.get_line(r["prefix"] + ".ops", n)
                     if known_match(known, pid, stream, op or "", verdict):
                         continue
@@ -261,7 +269,7 @@ def main():
             rule="cases are generated by harness streams " + ", ".join(s for s, _ in P["streams"][tier]) +
                  "; distinct = distinct op lines (hash), non-trivial = the real code's output payload differs from the input payload",
             samples=samples or [{"note": "no correspondence case ran"}],
-            distribution=dist,
+            distribution=dist, oracle_failures_of_other_properties=other_tags,
             streams=[dict(stream=r["stream"], cases=r["cases"], disagreements=r.get("n_disagree", 0), oracle_fail=r.get("n_oracle_fail", 0),
                           harness_s=round(r.get("harness_s", 0), 2), model_s=round(r.get("model_s", 0), 2)) for r in stream_results],
             proved=P.get("proved", ""), not_proved=P.get("not_proved", ""),
